@@ -889,6 +889,21 @@ async fn signal(a: &[String]) -> Vec<String> {
                     finish_v = wt_finish(&mut send).await;
                 }
             }
+            "lost" => {
+                // the receiving application closes the connection; once the sender has learnt of
+                // it, every signal of the stream says so — `finish()` above all never succeeds
+                accepter.close(VarInt::from_u32(9), b"bye");
+                if bounded(opener.closed()).await.is_none() {
+                    err = Some("closed:timeout".into());
+                }
+                stopped_v = stopped_of(bounded(send.stopped()).await);
+                write_v = match bounded(send.write(&[0x77])).await {
+                    None => "timeout".into(),
+                    Some(Ok(_)) => "ok".into(),
+                    Some(Err(e)) => canon::write_err(&e),
+                };
+                finish_v = wt_finish(&mut send).await;
+            }
             "stop_late" => {
                 // the writer learns of the stop from a failing write first; every later signal,
                 // asked for well after the peer has had time to answer whatever the library sent
@@ -1395,16 +1410,23 @@ fn gen_c06(thorough: bool, rng: &mut Rng, emit: &mut dyn FnMut(&str, Vec<String>
             }
         }
     }
-    for action in ["reset", "stop", "stop_late", "finish"] {
+    for action in ["reset", "stop", "stop_late", "finish", "lost"] {
         for phase in ["before", "mid", "after"] {
+            // after an acknowledged finish there is nothing left of the stream to ask
+            if action == "lost" && phase == "after" {
+                continue;
+            }
             for role in ROLES {
                 for code in codes {
+                    if action == "lost" && code > 63 {
+                        continue;
+                    }
                     for rt in RTS {
                         emit("signal", vec![s(rt), s(role), s(action), s(code), s(phase)]);
                     }
                 }
                 // random codes
-                let extra = if thorough { 250 } else if action == "stop_late" { 3 } else { 10 };
+                let extra = if thorough { 250 } else if action == "stop_late" || action == "lost" { 3 } else { 10 };
                 for _ in 0..extra {
                     let code = rng.varint62();
                     let rt = *rng.pick(&RTS);
